@@ -206,6 +206,7 @@ func (ex *Exec) oblige(st *State, class, label string, goal Term, tags []string,
 
 // obligeClause emits one obligation per top-level conjunct of a clause.
 func (ex *Exec) obligeClause(st *State, env *SpecEnv, class, label string, cl *Clause, tags []string, pos token.Pos) {
+	env = env.withPol(1)
 	parts := env.conjuncts(cl.E, "")
 	if len(parts) == 1 {
 		ex.oblige(st, class, label, parts[0].t, tags, cl.Src, pos)
@@ -867,6 +868,26 @@ func (ex *Exec) checkExit(st *State, results []*Val) {
 		}
 	}
 	env := &SpecEnv{ex: ex, st: st, vars: vars, cur: st, old: entryView{st}, pkg: ex.topFn.Pkg.Pkg, nextOld: st.next0}
+	// the map iteration of the function (when it has exactly one that was started on this path) stays
+	// nameable in postconditions: witnesses such as iterord(k)
+	if fr := st.frame; fr != nil && fr.parent == nil {
+		n := 0
+		for v, val := range fr.vals {
+			if _, ok := v.(*ssa.Range); ok && val.Iter != nil && val.Addr != nil {
+				if cell, ok := st.cells[val.Addr.Cell]; ok {
+					n++
+					env.iter = val.Iter
+					vars["iterpos"] = cell
+					vars["itercard"] = scalar(val.Iter.Card, types.Typ[types.Int])
+				}
+			}
+		}
+		if n != 1 {
+			env.iter = nil
+			delete(vars, "iterpos")
+			delete(vars, "itercard")
+		}
+	}
 	// ghost updates attached to the function (executed at its normal exit)
 	for _, gs := range c.GhostSets {
 		call, ok := gs.Target.(*ECall)
